@@ -15,6 +15,7 @@ from harness.common import Case, f
 from harness.detcal import det_world, histories_equal, history, make_calibrator, make_sampler, shared_functions
 from symx.core import lift
 from symx.memfs import MemFS
+from symx.core import reraise_if_harness  # noqa: E402
 
 LEVEL = "model_checking"
 FUNCTIONS = [
@@ -140,6 +141,7 @@ def replay_concrete(lineup, n, E, kinds, S):
                 msgs.append(f"{nm} differs" + (f" (shapes {x.shape}/{y.shape})" if i is None else f" at {i}: {x[i]!r} vs {y[i]!r}"))
         return bool(msgs), f"seed {S}, line-up {lineup}, {n} batches cut as {kinds} (1 = second calibrate(), 2 = checkpoint+restore): " + ("; ".join(msgs[:3]) or "same history as the uninterrupted run")
     except Exception as e:  # noqa: BLE001
+        reraise_if_harness(e)
         return True, f"segmented run raised {type(e).__name__}: {e}"
     finally:
         shutil.rmtree(tmp, ignore_errors=True)
